@@ -847,10 +847,11 @@ def _add_ext_stream():
     def gen2(tier, seed):
         return [["gen", seed, 6000 if tier == "quick" else 300000, "complete"]]
     PROPS["C07"]["streams"].append(Stream("complete", "rt", "rt-C07", gen2, nontrivial=rt_nontrivial, shape=rt_shape,
-                                          shrink=sexp_shrinks, compare_model=False))
+                                          shrink=sexp_shrinks))
     PROPS["C07"]["rule"] += ("; complete stream: the same completeness clause on the MODELLED fragment (task programs and "
                              "combinators of the DSL, a third of them built around a request future that is polled once and then "
-                             "moved to another task), any history, then every request dropped twice over and a final poll")
+                             "moved to another task), any history, then every request dropped twice over and a final poll; these cases are ALSO compared with "
+                             "the model line by line (kind `complete`), so the known finding covers only failures the model reproduces")
     PROPS["C07"]["rule"] += ("; ext stream (no exact model): builder chains in which a stream stage follows a stream "
                              "(StreamBuilder::then_stream = flatten_unordered, incl. follow-up streams that start with a request), alone "
                              "and under then/all/map_event, histories ending with every request dropped; the oracle tracks from the "
